@@ -1,0 +1,475 @@
+//go:build verif
+// +build verif
+
+package producer
+
+// Verification hook (build tag `verif` only): drives the real KafkaSarama.inputMsg against a client
+// library that reports errors at scripted points, and checks that the values reaching Input() are
+// exactly the messages handed over, in order, and that the error counter equals the number of error
+// reports taken from Errors().
+//
+// Line protocol (see /verif/BUILDING.md, "runner"): case lines are read from $VERIF_IN, one
+// "<impl line>\t<verdict>" line per case is written to $VERIF_OUT.
+//
+//	producerk mock <buf> <seed> <n> <script>
+//	producerk arms <buf> <seed> <n> <script>
+//
+// mock: the library is sarama's own mocks.NewAsyncProducer with Config.ChannelBufferSize = <buf>;
+// <script> has one letter per input the mock is prepared for: `s` the input is produced
+// successfully, `f` it fails and the mock reports a *sarama.ProducerError on Errors(). With
+// <buf> = 0 the channels are unbuffered and which arm of inputMsg's select can be taken is fixed by
+// the script (after a failed input the mock offers the error and accepts nothing until it is taken);
+// with <buf> > 0 both arms can be ready and the Go scheduler chooses: the impl line is `nd`, the
+// oracle still applies.
+//
+// arms: the library is a scripted sarama.AsyncProducer with unbuffered channels that, step by step,
+// either accepts one input (`i`) or reports one error (`e`), so that <script> is literally the
+// sequence of select arms inputMsg can take; after the script the library accepts every input.
+// <buf> is ignored (0).
+//
+// <n> messages derived from <seed> (distinct, any octets, some multi-kilobyte) are handed over on
+// the channel, which is then closed.
+//
+// impl line: "off=<indices of the handed-over messages whose value reached Input(), in arrival
+// order, as runs a-b> ec=<error counter> rep=<error reports inputMsg logged>", or "nd".
+
+import (
+	"bufio"
+	"bytes"
+	"errors"
+	"fmt"
+	"log"
+	"math/rand"
+	"os"
+	"runtime"
+	"strconv"
+	"strings"
+	"sync"
+	"testing"
+	"time"
+
+	"github.com/Shopify/sarama"
+	"github.com/Shopify/sarama/mocks"
+)
+
+type verifKBuf struct {
+	mu sync.Mutex
+	b  bytes.Buffer
+}
+
+func (l *verifKBuf) Write(p []byte) (int, error) {
+	l.mu.Lock()
+	defer l.mu.Unlock()
+	return l.b.Write(p)
+}
+
+func (l *verifKBuf) String() string {
+	l.mu.Lock()
+	defer l.mu.Unlock()
+	return l.b.String()
+}
+
+// verifKReporter is the mocks.ErrorReporter: it only remembers what the mock complained about
+type verifKReporter struct {
+	mu   sync.Mutex
+	msgs []string
+}
+
+func (r *verifKReporter) Errorf(f string, a ...interface{}) {
+	r.mu.Lock()
+	r.msgs = append(r.msgs, fmt.Sprintf(f, a...))
+	r.mu.Unlock()
+}
+
+func (r *verifKReporter) has(sub string) bool {
+	r.mu.Lock()
+	defer r.mu.Unlock()
+	for _, m := range r.msgs {
+		if strings.Contains(m, sub) {
+			return true
+		}
+	}
+	return false
+}
+
+// verifKRecorder collects what reached Input()
+type verifKRecorder struct {
+	mu     sync.Mutex
+	values [][]byte
+	topics []string
+}
+
+func (c *verifKRecorder) add(topic string, v []byte) {
+	c.mu.Lock()
+	c.values = append(c.values, append([]byte{}, v...))
+	c.topics = append(c.topics, topic)
+	c.mu.Unlock()
+}
+
+// verifKArms is a sarama.AsyncProducer whose unbuffered channels follow a script of select arms
+type verifKArms struct {
+	input  chan *sarama.ProducerMessage
+	errs   chan *sarama.ProducerError
+	succ   chan *sarama.ProducerMessage
+	stop   chan struct{}
+	done   chan struct{}
+	once   sync.Once
+	rec    *verifKRecorder
+	mu     sync.Mutex
+	nerr   int // error reports taken from Errors()
+	encErr int
+}
+
+func newVerifKArms(script string, rec *verifKRecorder) *verifKArms {
+	a := &verifKArms{
+		input: make(chan *sarama.ProducerMessage),
+		errs:  make(chan *sarama.ProducerError),
+		succ:  make(chan *sarama.ProducerMessage),
+		stop:  make(chan struct{}),
+		done:  make(chan struct{}),
+		rec:   rec,
+	}
+	take := func() bool {
+		select {
+		case m := <-a.input:
+			v, err := m.Value.Encode()
+			if err != nil {
+				a.mu.Lock()
+				a.encErr++
+				a.mu.Unlock()
+			}
+			rec.add(m.Topic, v)
+			return true
+		case <-a.stop:
+			return false
+		}
+	}
+	go func() {
+		defer close(a.done)
+		for k := 0; k < len(script); k++ {
+			if script[k] == 'e' {
+				pe := &sarama.ProducerError{Msg: &sarama.ProducerMessage{Topic: "verif"}, Err: fmt.Errorf("verif scripted error %d", k)}
+				select {
+				case a.errs <- pe:
+					a.mu.Lock()
+					a.nerr++
+					a.mu.Unlock()
+				case <-a.stop:
+					return
+				}
+			} else if !take() {
+				return
+			}
+		}
+		for take() {
+		}
+	}()
+	return a
+}
+
+func (a *verifKArms) AsyncClose()                               { a.once.Do(func() { close(a.stop) }) }
+func (a *verifKArms) Close() error                              { a.AsyncClose(); <-a.done; return nil }
+func (a *verifKArms) Input() chan<- *sarama.ProducerMessage     { return a.input }
+func (a *verifKArms) Successes() <-chan *sarama.ProducerMessage { return a.succ }
+func (a *verifKArms) Errors() <-chan *sarama.ProducerError      { return a.errs }
+
+// verifKMessages: n distinct messages; each starts with its index; printf verbs, binary octets
+// (newlines included: nothing frames a kafka value) and a few multi-kilobyte ones
+func verifKMessages(seed int64, n int) [][]byte {
+	r := rand.New(rand.NewSource(seed))
+	verbs := []string{"%d", "%s", "%v", "%%", "%!x", "%", "%+v", "%[2]d", "100%", "%n"}
+	msgs := make([][]byte, n)
+	for k := 0; k < n; k++ {
+		var b bytes.Buffer
+		fmt.Fprintf(&b, `{"i":%d,"AgentID":"10.0.%d.%d","d":"`, k, r.Intn(256), r.Intn(256))
+		switch r.Intn(6) {
+		case 0:
+			for j, m := 0, r.Intn(40); j < m; j++ {
+				b.WriteByte(byte(32 + r.Intn(95)))
+			}
+		case 1:
+			for j, m := 0, 1+r.Intn(6); j < m; j++ {
+				b.WriteString(verbs[r.Intn(len(verbs))])
+				b.WriteByte(byte(97 + r.Intn(26)))
+			}
+		case 2:
+			for j, m := 0, 1+r.Intn(300); j < m; j++ {
+				b.WriteByte(byte(r.Intn(256)))
+			}
+		case 3:
+			if r.Intn(4) == 0 {
+				for j, m := 0, 2000+r.Intn(60000); j < m; j++ {
+					b.WriteByte(byte(32 + r.Intn(95)))
+				}
+			}
+		case 4:
+			// empty payload tail
+		default:
+			b.WriteString(`{"I":8,"V":"a%b"},{"I":12,"V":"100%"}`)
+		}
+		b.WriteString(`"}`)
+		msgs[k] = b.Bytes()
+	}
+	return msgs
+}
+
+// verifKRuns renders indices as runs: 0-3,5,7-9 ("none" when empty)
+func verifKRuns(idx []int) string {
+	if len(idx) == 0 {
+		return "none"
+	}
+	var parts []string
+	a, b := idx[0], idx[0]
+	flush := func() {
+		if a == b {
+			parts = append(parts, strconv.Itoa(a))
+		} else {
+			parts = append(parts, fmt.Sprintf("%d-%d", a, b))
+		}
+	}
+	for _, x := range idx[1:] {
+		if x == b+1 {
+			b = x
+			continue
+		}
+		flush()
+		a, b = x, x
+	}
+	flush()
+	return strings.Join(parts, ",")
+}
+
+// verifKInClose reports whether the goroutine running KafkaSarama.inputMsg has left its loop and
+// is inside the library's Close()
+func verifKInClose() bool {
+	buf := make([]byte, 1<<18)
+	buf = buf[:runtime.Stack(buf, true)]
+	for _, blk := range strings.Split(string(buf), "\n\n") {
+		if strings.Contains(blk, "(*KafkaSarama).inputMsg") {
+			return strings.Contains(blk, ").Close(")
+		}
+	}
+	return false
+}
+
+func verifSaramaCase(line string) (string, string) {
+	f := strings.Split(line, " ")
+	if len(f) != 6 || f[0] != "producerk" || (f[1] != "mock" && f[1] != "arms") {
+		return "bad-op", ""
+	}
+	buf, e1 := strconv.Atoi(f[2])
+	seed, e2 := strconv.ParseInt(f[3], 10, 64)
+	n, e3 := strconv.Atoi(f[4])
+	script := f[5]
+	if script == "-" {
+		script = ""
+	}
+	if e1 != nil || e2 != nil || e3 != nil || buf < 0 || n < 0 {
+		return "bad-op", ""
+	}
+	alphabet := "sf"
+	if f[1] == "arms" {
+		alphabet = "ie"
+	}
+	for i := 0; i < len(script); i++ {
+		if strings.IndexByte(alphabet, script[i]) < 0 {
+			return "bad-op", ""
+		}
+	}
+
+	msgs := verifKMessages(seed, n)
+	rec := &verifKRecorder{}
+	rep := &verifKReporter{}
+	var lbuf verifKBuf
+	const topic = "vflow.verif"
+	k := &KafkaSarama{logger: log.New(&lbuf, "", 0)}
+	k.config.Brokers = []string{"verif:0"}
+
+	var mock *mocks.AsyncProducer
+	var arms *verifKArms
+	if f[1] == "mock" {
+		cfg := sarama.NewConfig()
+		cfg.ChannelBufferSize = buf
+		mock = mocks.NewAsyncProducer(rep, cfg)
+		checker := func(v []byte) error { rec.add(topic, v); return nil }
+		for i := 0; i < len(script); i++ {
+			if script[i] == 'f' {
+				mock.ExpectInputWithCheckerFunctionAndFail(checker, errors.New("verif scripted failure "+strconv.Itoa(i)))
+			} else {
+				mock.ExpectInputWithCheckerFunctionAndSucceed(checker)
+			}
+		}
+		// room to see an input that is offered more often than it was handed over
+		for i := 0; i < 4; i++ {
+			mock.ExpectInputWithCheckerFunctionAndSucceed(checker)
+		}
+		k.producer = mock
+	} else {
+		arms = newVerifKArms(script, rec)
+		k.producer = arms
+	}
+
+	var ec uint64
+	mCh := make(chan []byte, int(seed%3))
+	done := make(chan struct{})
+	go func() {
+		defer close(done)
+		k.inputMsg(topic, mCh, &ec)
+	}()
+	for _, m := range msgs {
+		mCh <- m
+	}
+	close(mCh)
+
+	// inputMsg ends with producer.Close(). The mock's Close waits for its goroutine, which may be
+	// blocked handing over an error report nobody reads any more (sarama's real Close drains them):
+	// once inputMsg is inside Close, and only then, the remaining reports are drained here.
+	unread := 0
+	hung := false
+	deadline := time.Now().Add(20 * time.Second)
+wait:
+	for {
+		select {
+		case <-done:
+			break wait
+		case <-time.After(2 * time.Millisecond):
+		}
+		if mock != nil && verifKInClose() {
+			for range mock.Errors() {
+				unread++
+			}
+			<-done
+			break wait
+		}
+		if time.Now().After(deadline) {
+			hung = true
+			break wait
+		}
+	}
+	if hung {
+		return "hang", "fail:hang inputMsg did not return after the channel was closed"
+	}
+	if mock != nil {
+		for range mock.Errors() { // closed by now; what stayed in its buffer
+			unread++
+		}
+	}
+
+	logged := strings.Count(lbuf.String(), "kafka: Failed to produce message")
+
+	rec.mu.Lock()
+	values, topics := rec.values, rec.topics
+	rec.mu.Unlock()
+
+	// which handed-over message is each value that reached Input()?
+	byText := make(map[string]int, n)
+	for i, m := range msgs {
+		byText[string(m)] = i
+	}
+	var idx []int
+	verdict := ""
+	fail := func(s string) {
+		if verdict == "" {
+			verdict = s
+		}
+	}
+	for j, v := range values {
+		i, ok := byText[string(v)]
+		if !ok {
+			fail(fmt.Sprintf("fail:altered value %d reaching Input() is none of the handed-over messages (%d octets)", j, len(v)))
+			i = -1
+		}
+		idx = append(idx, i)
+		if topics[j] != topic {
+			fail(fmt.Sprintf("fail:topic value %d was sent to topic %q", j, topics[j]))
+		}
+	}
+	impl := fmt.Sprintf("off=%s ec=%d rep=%d", verifKRuns(idx), ec, logged)
+
+	// the oracle: everything handed over reached Input() exactly once, in order
+	if verdict == "" {
+		for j := 0; j < len(idx) || j < n; j++ {
+			switch {
+			case j >= len(idx):
+				fail(fmt.Sprintf("fail:not-offered message %d of %d never reached Input() (%d values did)", j, n, len(idx)))
+			case j >= n:
+				fail(fmt.Sprintf("fail:extra value %d reached Input(), only %d messages were handed over", j, n))
+			case idx[j] < j:
+				fail(fmt.Sprintf("fail:duplicate message %d reached Input() again as value %d", idx[j], j))
+			case idx[j] > j:
+				fail(fmt.Sprintf("fail:not-offered message %d of %d never reached Input() (value %d is message %d)", j, n, j, idx[j]))
+			}
+			if verdict != "" {
+				break
+			}
+		}
+	}
+	if rep.has("No more expectation") {
+		fail("fail:extra more inputs than the mock was prepared for")
+	}
+	// the error counter is the number of error reports taken from Errors()
+	if uint64(logged) != ec {
+		fail(fmt.Sprintf("fail:counter ec=%d but %d error reports were logged", ec, logged))
+	}
+	if arms != nil {
+		arms.mu.Lock()
+		nerr, encErr := arms.nerr, arms.encErr
+		arms.mu.Unlock()
+		if uint64(nerr) != ec {
+			fail(fmt.Sprintf("fail:counter ec=%d but %d error reports were taken from Errors()", ec, nerr))
+		}
+		if encErr != 0 {
+			fail("fail:altered a value could not be encoded")
+		}
+	} else if verdict == "" {
+		// every failing input that reached the mock produced one report: taken (counted) or left unread
+		failed := 0
+		for j := 0; j < len(values) && j < len(script); j++ {
+			if script[j] == 'f' {
+				failed++
+			}
+		}
+		if int(ec)+unread != failed {
+			fail(fmt.Sprintf("fail:counter ec=%d, %d reports left unread, but the mock reported %d", ec, unread, failed))
+		}
+	}
+	if verdict == "" {
+		verdict = "ok"
+	}
+	if mock != nil && buf != 0 {
+		impl = "nd"
+	}
+	return impl, verdict
+}
+
+func TestVerifSarama(t *testing.T) {
+	in, out := os.Getenv("VERIF_IN"), os.Getenv("VERIF_OUT")
+	if in == "" || out == "" {
+		t.Skip("VERIF_IN / VERIF_OUT not set")
+	}
+	fi, err := os.Open(in)
+	if err != nil {
+		t.Fatal(err)
+	}
+	defer fi.Close()
+	fo, err := os.Create(out)
+	if err != nil {
+		t.Fatal(err)
+	}
+	defer fo.Close()
+	sc := bufio.NewScanner(fi)
+	sc.Buffer(make([]byte, 1<<20), 1<<26)
+	for sc.Scan() {
+		line := sc.Text()
+		if i := strings.IndexByte(line, '\t'); i >= 0 {
+			line = line[:i]
+		}
+		if line == "new" {
+			fmt.Fprintln(fo, "new\t")
+			continue
+		}
+		impl, verdict := verifSaramaCase(line)
+		fmt.Fprintf(fo, "%s\t%s\n", impl, strings.ReplaceAll(verdict, "\n", " "))
+		fo.Sync()
+	}
+}
